@@ -8,6 +8,17 @@ Sorts usable as set elements / dict keys must be "flat" (eq is z3 `=`).
 import z3
 
 
+_SLICES = {}   # term id of a slice -> (base term, lo, hi) with clamped bounds
+_KEEP = []     # keeps the slice terms alive so that ids stay unique
+
+
+def select(arr, i):
+  """arr[i] with eager beta-reduction when arr is a lambda term."""
+  if z3.is_quantifier(arr) and arr.is_lambda() and arr.num_vars() == 1:
+    return z3.substitute_vars(arr.body(), i)
+  return z3.Select(arr, i)
+
+
 class Sort:
   name = '?'
   flat = True  # Python == coincides with z3 =
@@ -187,7 +198,7 @@ class Seq(Sort):
     return self._z.mk(arr, n)
 
   def at(self, t, i):
-    return z3.Select(self.arr(t), i)
+    return select(self.arr(t), i if z3.is_expr(i) else z3.IntVal(i))
 
   def empty(self):
     return self.mk(z3.K(z3.IntSort(), self.elem.fresh('dflt')), z3.IntVal(0))
@@ -211,6 +222,12 @@ class Seq(Sort):
 
   def contains(self, t, x):
     k = z3.FreshConst(z3.IntSort(), 'k')
+    info = _SLICES.get(t.get_id())
+    if info is not None:
+      # x in base[lo:hi]: quantify over the indices of the base sequence (no index
+      # arithmetic under the quantifier, which E-matching cannot invert)
+      base, lo, hi = info
+      return z3.Exists([k], z3.And(lo <= k, k < hi, self.elem.eq(self.at(base, k), x)))
     return z3.Exists([k], z3.And(0 <= k, k < self.len(t),
                                  self.elem.eq(self.at(t, k), x)))
 
@@ -228,7 +245,10 @@ class Seq(Sort):
     p = z3.FreshConst(z3.IntSort(), 'p')
     arr = z3.Lambda([p], z3.Select(self.arr(t), p + lo))
     ln = z3.If(hi - lo < 0, z3.IntVal(0), hi - lo)
-    return self.mk(arr, z3.simplify(ln))
+    r = self.mk(arr, z3.simplify(ln))
+    _SLICES[r.get_id()] = (t, z3.simplify(lo), z3.simplify(hi))
+    _KEEP.append(r)
+    return r
 
   def concat(self, a, b):
     p = z3.FreshConst(z3.IntSort(), 'p')
